@@ -69,8 +69,9 @@ func judge(rec *hostsfile.Record, err error, rr refRec) string {
 }
 
 type local struct {
-	e, n int64
-	cls  [5]int64
+	e, n   int64
+	cls    [5]int64
+	reused *hostsfile.Record // one Record value parsed into again and again
 }
 
 func c07Case(r *mon.Run, l *local, line string) {
@@ -90,6 +91,16 @@ func c07Case(r *mon.Run, l *local, line string) {
 	if w := judge(rec, err, rr); w != "" {
 		r.Violation("c07:"+mon.Q(line), fmt.Sprintf("Record.UnmarshalText(%s) [reference class %s]: %s", mon.Q(line), clsNames[rr.cls], w), map[string]any{"line": line})
 		return
+	}
+	// the same Record value used for line after line must end up exactly like a fresh one
+	if l.reused == nil {
+		l.reused = &hostsfile.Record{}
+	}
+	l.e++
+	rerr := l.reused.UnmarshalText(data)
+	if w := judge(l.reused, rerr, rr); w != "" {
+		r.Violation("c07-reused:"+mon.Q(line), fmt.Sprintf("Record.UnmarshalText(%s) into a Record that already held an earlier line [reference class %s]: %s", mon.Q(line), clsNames[rr.cls], w), map[string]any{"line": line, "reused": true})
+		l.reused = nil
 	}
 	if err != nil {
 		_ = err.Error()
